@@ -532,14 +532,14 @@ pub struct Castle {
     /// squares the castling king crosses)
     pub ek_rank2: bool,
 }
-const CASTLE_MENU: [(Kind, bool); 7] = [(Kind::N, true), (Kind::B, true), (Kind::R, false), (Kind::B, false), (Kind::N, false), (Kind::Q, false), (Kind::P, false)];
+const CASTLE_MENU: [(Kind, bool); 8] = [(Kind::N, true), (Kind::B, true), (Kind::R, true), (Kind::R, false), (Kind::B, false), (Kind::N, false), (Kind::Q, false), (Kind::P, false)];
 impl RawUniverse for Castle {
     fn name(&self) -> String {
         format!("S-CASTLE(n<={}{})", self.extra, if self.ek_rank2 { ",ek on rank 2" } else { "" })
     }
     fn bounds(&self) -> Value {
         json!({"colours": 2, "king_files": 8, "king_off_back_rank_variants": true, "rook_files": "every admissible file or none, per wing", "rights": "every subset", "enemy_king_squares": if self.ek_rank2 { 12 } else { 4 }, "sides": 2,
-               "extra_pieces_max": self.extra, "extra_menu": "own N, own B, enemy R B N Q P on the three ranks nearest the king"})
+               "extra_pieces_max": self.extra, "extra_menu": "own N, own B, own R (a second rook on the wing), enemy R B N Q P on the three ranks nearest the king"})
     }
     fn parts(&self) -> usize {
         2 * 8
@@ -1106,6 +1106,192 @@ impl RawUniverse for CheckPin {
                                     f(q);
                                 }
                             }
+                        }
+                    }
+                }
+            }
+        }
+    }
+}
+
+/// Pin universe (no check): the mover's king on a few squares; on each of the 8 lines one piece of
+/// the mover — INCLUDING a pawn — at every distance, pinned by an enemy R|B (by line type) or Q at
+/// every distance behind it; plus no or one enemy knight on each of the 8 squares around the pinned
+/// piece (something it might seem able to capture).
+pub struct PinUniverse {
+    pub kings: Vec<Sq>,
+}
+impl RawUniverse for PinUniverse {
+    fn name(&self) -> String {
+        format!("S-PIN(kings={})", self.kings.len())
+    }
+    fn bounds(&self) -> Value {
+        json!({"mover_king_squares": self.kings, "mover_colours": 2, "pinned": "P N B R Q of the mover at every distance on each of the 8 lines", "pinner": "enemy R|B (by line type) or Q at every distance behind",
+               "bait": "none or an enemy knight on each of the 8 squares around the pinned piece"})
+    }
+    fn parts(&self) -> usize {
+        self.kings.len() * 2
+    }
+    fn part(&self, i: usize, f: &mut dyn FnMut(Pos)) {
+        let c = Col::ALL[i % 2];
+        let k = self.kings[i / 2];
+        let them = c.other();
+        for dir in DIRS8 {
+            let mut squares = Vec::new();
+            let mut cur = k;
+            while let Some(n) = refmodel::step(cur, dir.0, dir.1) {
+                squares.push(n);
+                cur = n;
+            }
+            let ortho = dir.0 == 0 || dir.1 == 0;
+            for (pi, &psq) in squares.iter().enumerate() {
+                for &ssq in &squares[pi + 1..] {
+                    for sk in [if ortho { Kind::R } else { Kind::B }, Kind::Q] {
+                        for ok in NONKING {
+                            if ok == Kind::P && (refmodel::rank_of(psq) == 0 || refmodel::rank_of(psq) == 7) {
+                                continue;
+                            }
+                            let mut p = Pos::empty();
+                            p.stm = c;
+                            put(&mut p, k, Kind::K, c);
+                            put(&mut p, psq, ok, c);
+                            put(&mut p, ssq, sk, them);
+                            let ek = [63u8, 56, 7, 0, 62, 1].into_iter().find(|&e| {
+                                p.sq[e as usize].is_none()
+                                    && ((refmodel::file_of(e) as i32 - refmodel::file_of(k) as i32).abs() > 1 || (refmodel::rank_of(e) as i32 - refmodel::rank_of(k) as i32).abs() > 1)
+                            });
+                            let ek = match ek {
+                                Some(e) => e,
+                                None => continue,
+                            };
+                            put(&mut p, ek, Kind::K, them);
+                            f(p.clone());
+                            for d in DIRS8 {
+                                if let Some(bs) = refmodel::step(psq, d.0, d.1) {
+                                    if p.sq[bs as usize].is_none() {
+                                        let mut q = p.clone();
+                                        put(&mut q, bs, Kind::N, them);
+                                        f(q);
+                                    }
+                                }
+                            }
+                        }
+                    }
+                }
+            }
+        }
+    }
+}
+
+/// En-passant stalemate universe: the mover's king on the a- or h-file of the pawns' rank, its pawn
+/// next to it, the just-pushed enemy pawn beside that, an enemy rook further along the rank (so the
+/// capture would expose the king), and the enemy king and one enemy knight on EVERY pair of squares:
+/// contains the positions in which the illegal en-passant capture is the only pseudo-legal move.
+pub struct EpStale;
+impl RawUniverse for EpStale {
+    fn name(&self) -> String {
+        "S-EPSTALE".into()
+    }
+    fn bounds(&self) -> Value {
+        json!({"mover_colours": 2, "wings": 2, "rank_slider_files": 5, "enemy_king": "every square", "enemy_knight": "every square", "ep_flag": "set"})
+    }
+    fn parts(&self) -> usize {
+        2 * 2 * 5
+    }
+    fn part(&self, i: usize, f: &mut dyn FnMut(Pos)) {
+        let c = Col::ALL[i % 2];
+        let left = (i / 2) % 2 == 0;
+        let ri = (i / 4) as u8; // 0..5
+        let them = c.other();
+        let rank = c.rel_rank(4);
+        let file = |n: u8| if left { n } else { 7 - n };
+        let ks = sq(file(0), rank);
+        let own = sq(file(1), rank);
+        let pushed = sq(file(2), rank);
+        let rook = sq(file(3 + ri), rank);
+        let target = sq(file(2), c.rel_rank(5));
+        let mut base = Pos::empty();
+        base.stm = c;
+        base.ep = Some(target);
+        base.fm = 3;
+        put(&mut base, ks, Kind::K, c);
+        put(&mut base, own, Kind::P, c);
+        put(&mut base, pushed, Kind::P, them);
+        put(&mut base, rook, Kind::R, them);
+        for ek in 0..64u8 {
+            if base.sq[ek as usize].is_some() {
+                continue;
+            }
+            for n in 0..64u8 {
+                if n == ek || base.sq[n as usize].is_some() {
+                    continue;
+                }
+                let mut p = base.clone();
+                put(&mut p, ek, Kind::K, them);
+                put(&mut p, n, Kind::N, them);
+                f(p);
+            }
+        }
+    }
+}
+
+/// En-passant file universe (seven men): both flanking pawns of the mover present, the mover's king
+/// on the en-passant file, an enemy rook / queen on that file beyond the pushed pawn, and a second
+/// enemy slider (B or Q) on every square (it may pin one of the two capturers).
+pub struct EpFile;
+impl RawUniverse for EpFile {
+    fn name(&self) -> String {
+        "S-EPFILE".into()
+    }
+    fn bounds(&self) -> Value {
+        json!({"mover_colours": 2, "ep_files": 6, "capturers": "both", "own_king": "every free square of the en-passant file", "file_slider": "enemy R or Q on every free square of that file", "second_slider": "enemy B or Q on every square, or none", "ep_flag": "set"})
+    }
+    fn parts(&self) -> usize {
+        2 * 6
+    }
+    fn part(&self, i: usize, f: &mut dyn FnMut(Pos)) {
+        let c = Col::ALL[i % 2];
+        let file = 1 + (i / 2) as u8;
+        let them = c.other();
+        let rank = c.rel_rank(4);
+        let mut base = Pos::empty();
+        base.stm = c;
+        base.ep = Some(sq(file, c.rel_rank(5)));
+        base.fm = 3;
+        put(&mut base, sq(file, rank), Kind::P, them);
+        put(&mut base, sq(file - 1, rank), Kind::P, c);
+        put(&mut base, sq(file + 1, rank), Kind::P, c);
+        for kr in 0..8u8 {
+            let ks = sq(file, kr);
+            if base.sq[ks as usize].is_some() || Some(ks) == base.ep || kr == c.rel_rank(6) {
+                continue;
+            }
+            for rr in 0..8u8 {
+                let rs = sq(file, rr);
+                if rs == ks || base.sq[rs as usize].is_some() || Some(rs) == base.ep || rr == c.rel_rank(6) {
+                    continue;
+                }
+                for rk in [Kind::R, Kind::Q] {
+                    let mut p1 = base.clone();
+                    put(&mut p1, ks, Kind::K, c);
+                    put(&mut p1, rs, rk, them);
+                    let ek = [sq(0, them.back_rank()), sq(7, them.back_rank()), sq(0, c.back_rank()), sq(7, c.back_rank())].into_iter().find(|&e| {
+                        p1.sq[e as usize].is_none() && ((refmodel::file_of(e) as i32 - file as i32).abs() > 1 || (refmodel::rank_of(e) as i32 - kr as i32).abs() > 1)
+                    });
+                    let ek = match ek {
+                        Some(e) => e,
+                        None => continue,
+                    };
+                    put(&mut p1, ek, Kind::K, them);
+                    f(p1.clone());
+                    for bs in 0..64u8 {
+                        if p1.sq[bs as usize].is_some() || Some(bs) == base.ep || bs == sq(file, c.rel_rank(6)) {
+                            continue;
+                        }
+                        for bk in [Kind::B, Kind::Q] {
+                            let mut p2 = p1.clone();
+                            put(&mut p2, bs, bk, them);
+                            f(p2);
                         }
                     }
                 }
